@@ -179,6 +179,8 @@ pub struct DeRun<'de> {
     /// presented to the visitor, the others are left alone (what serde's own
     /// `#[serde(flatten)]` machinery and some real formats do)
     pub honour_fields: bool,
+    /// what `is_human_readable()` reports (binary formats say false)
+    pub human_readable: bool,
     /// what the code under test passed to `deserialize_struct`
     pub fields_seen: Option<&'static [&'static str]>,
     pub struct_name_seen: Option<&'static str>,
@@ -203,6 +205,7 @@ impl<'de> DeRun<'de> {
             strict_end,
             fault,
             honour_fields: false,
+            human_readable: true,
             fields_seen: None,
             struct_name_seen: None,
             pos: 0,
@@ -362,7 +365,7 @@ impl<'de> Deserializer<'de> for &mut DeRun<'de> {
         tuple_struct map enum identifier ignored_any
     }
     fn is_human_readable(&self) -> bool {
-        true
+        self.human_readable
     }
 }
 
